@@ -27,3 +27,4 @@ import LyModel.Props.C09DepSet
 #print axioms LyModel.Props.C09.compiled_untouched_before_compile
 #print axioms LyModel.Ctx.depSetsCreate_closure
 #print axioms LyModel.Props.C09.amend_targets_in_dep_set
+#print axioms LyModel.Props.C09.targets_flagged_after_dep_sets
